@@ -10,6 +10,7 @@
 -/
 import LiteFSVerif.Proofs.Image
 import LiteFSVerif.Proofs.Engine
+import LiteFSVerif.Proofs.Log
 
 set_option linter.unusedSimpArgs false
 
@@ -122,6 +123,77 @@ theorem C09_retention_keeps_newest (s : Eng) (f : LTXFile) (h : s.ltx.getLast? =
     rw [← hlast, List.getLast_eq_getElem]
   · have hl : 0 < s.ltx.length := List.length_pos_iff.mpr hne
     simp; omega
+
+/-! ### the log invariant over engine operations
+
+`LogInv s`: the log of `s` is one chain of files with non-empty TXID ranges whose newest file ends
+at the node's position.  It holds initially and is preserved by every operation that adds to the
+log — so it holds after any sequence of them. -/
+
+theorem C09_inv_init : LogInv {} := LogInv.init
+
+theorem C09_inv_journal_commit (s s' : Eng) (mode : Nat) (hinv : LogInv s)
+    (h : commitJournalValid s mode = .ok s') : LogInv s' := by
+  obtain ⟨f, h1, h2, h3, h4, h5, h6, _⟩ := commitJournalValid_shape s s' mode h
+  exact hinv.extend f h1 h2 h4 (by rw [h6, h3]) h5.symm (by omega)
+
+theorem C09_inv_wal_commit (s s' : Eng) (hinv : LogInv s) (h : commitWALBody s = .ok s') : LogInv s' := by
+  rcases commitWAL_shape s s' h with e | ⟨f, h1, h2, h3, h4, h5, h6, _⟩
+  · rw [e]; exact hinv
+  · exact hinv.extend f h1 h2 h4 (by rw [h6, h3]) h5.symm (by omega)
+
+theorem C09_inv_drop (s s' : Eng) (hinv : LogInv s) (h : drop s = .ok s') : LogInv s' := by
+  obtain ⟨f, h1, h2, h3, h4, _, _, h7, h8⟩ := C09_drop s s' h
+  exact hinv.extend f h1 h2 h4 h7 h8 (by omega)
+
+/-- `WriteLTXFileAt`: an accepted incremental file extends the chain (the position moves when the
+    file is applied: `C13_applied_at_same_position`); an accepted snapshot replaces the log -/
+theorem C09_inv_write_incremental (s s1 s' : Eng) (f : LTXFile) (hinv : LogInv s)
+    (hw : writeLTXFile s f = .ok s1) (hn : f.minTxid ≠ 1) (hr : f.minTxid ≤ f.maxTxid)
+    (hl : s'.ltx = s1.ltx) (hp : s'.posTxid = f.maxTxid ∧ s'.posChk = f.post) : LogInv s' := by
+  obtain ⟨h1, h2, h3⟩ := C09_writeLTX_extends s s1 f hw hn
+  exact hinv.extend f (by rw [hl, h3]) h1 h2 hp.1 hp.2 hr
+
+theorem C09_inv_write_snapshot (s s1 s' : Eng) (f : LTXFile)
+    (hw : writeLTXFile s f = .ok s1) (hs : f.minTxid = 1) (hr : f.minTxid ≤ f.maxTxid)
+    (hl : s'.ltx = s1.ltx) (hp : s'.posTxid = f.maxTxid ∧ s'.posChk = f.post) : LogInv s' := by
+  have := C09_writeLTX_snapshot s s1 f hw hs
+  exact LogInv.snapshot f (by rw [hl, this]) (by omega) hr hp.1 hp.2
+
+/-- the stream path as a whole: a received file that the node accepts (incremental or snapshot)
+    leaves the log a chain ending at the new position -/
+theorem C09_inv_receive (s s' : Eng) (f : LTXFile) (hinv : LogInv s) (hr : 1 ≤ f.minTxid ∧ f.minTxid ≤ f.maxTxid)
+    (h : receiveLTX s f = .ok s') : LogInv s' := by
+  unfold receiveLTX at h
+  cases hl : s.locks.tryAcquireWriteLock s.walMode with
+  | mk t oi =>
+    rw [hl] at h
+    cases oi with
+    | none => simp [fail] at h
+    | some i =>
+      simp only at h
+      cases hr1 : (do let s1 ← writeLTXFile { s with locks := t } f; applyLTX s1 f true : M Eng) with
+      | error e => rw [hr1] at h; simp [fail] at h
+      | ok s2 =>
+        rw [hr1] at h
+        simp only [pure, Except.pure] at h
+        injection h with h
+        subst h
+        obtain ⟨s1, hw, ha⟩ := M_bind_ok hr1
+        obtain ⟨hl2, hp1, hp2⟩ := applyLTX_frame s1 s2 f true ha
+        have hinv0 : LogInv { s with locks := t } := ⟨hinv.chain, hinv.ranges, hinv.last⟩
+        by_cases hs : f.minTxid = 1
+        · exact C09_inv_write_snapshot { s with locks := t } s1 _ f hw hs hr.2 hl2 ⟨hp1, hp2⟩
+        · exact C09_inv_write_incremental { s with locks := t } s1 _ f hinv0 hw hs hr.2 hl2 ⟨hp1, hp2⟩
+
+/-- removing the k oldest files (retention) while the newest stays keeps the invariant -/
+theorem C09_inv_retention (s s' : Eng) (k : Nat) (hinv : LogInv s) (hk : k < s.ltx.length ∨ s.ltx = [])
+    (h1 : s'.ltx = s.ltx.drop k) (h2 : s'.posTxid = s.posTxid) (h3 : s'.posChk = s.posChk) : LogInv s' :=
+  hinv.dropPrefix k hk h1 h2 h3
+
+/-- consequence of the invariant: TXID ranges along the log are contiguous and end at the position -/
+theorem C09_inv_newest_is_position (s : Eng) (hinv : LogInv s) (f : LTXFile) (h : s.ltx.getLast? = some f) :
+    f.maxTxid = s.posTxid ∧ f.post = s.posChk := hinv.last f h
 
 /-! ### non-vacuity -/
 example : chainOK [⟨1, 1, 0, 5, 1, []⟩, ⟨2, 2, 5, 7, 1, []⟩, ⟨3, 4, 7, 9, 2, []⟩] = true := by decide
